@@ -68,6 +68,14 @@ note = os.path.join(wt, "NOTE.md")
 meta["needs_to_manifest"] = open(note).read()[:6000] if os.path.exists(note) else ""
 out = os.path.join(V, "seeded", sid)
 os.makedirs(out, exist_ok=True)
+# keep the history: an earlier evaluation (before the framework was strengthened) stays on record
+old = os.path.join(out, "meta.json")
+if os.path.exists(old):
+    try:
+        o = json.load(open(old))
+        meta["previous_runs"] = o.get("previous_runs", []) + [{"check_results": {k: {"rc": v["rc"], "report": v["report"][:2], "infra": [x[:300] for x in v["infra"][:1]]} for k, v in o.get("check_results", {}).items()}, "strengthened_after": os.environ.get("SEED_NOTE", "")}]
+    except Exception:
+        pass
 shutil.copy(patch, os.path.join(out, "patch.diff"))
 shutil.copy(demo, os.path.join(out, "demo.rs"))
 json.dump(meta, open(os.path.join(out, "meta.json"), "w"), indent=1)
